@@ -511,7 +511,16 @@ class SymBytes:
         raise Refuse('hash of a symbolic byte string')
 
     def __eq__(self, o):
+        # two big-endian encodings of the same (concrete) width are equal iff the encoded values are (both were range-checked when packed)
+        if isinstance(o, SymBytes) and len(self.segs) == 1 and len(o.segs) == 1 and self.segs[0][0] == 'be' and o.segs[0][0] == 'be' \
+                and isinstance(self.segs[0][1], int) and self.segs[0][1] == o.segs[0][1]:
+            return SymInt(self.segs[0][2]) == SymInt(o.segs[0][2]) if isinstance(self.segs[0][2], E) or isinstance(o.segs[0][2], E) \
+                else self.segs[0][2] == o.segs[0][2]
         raise Refuse('comparison of symbolic byte strings')
+
+    def __ne__(self, o):
+        r = self.__eq__(o)
+        return (not r) if isinstance(r, bool) else SymBool('ne', r.a, r.b)
 
     def __bool__(self):
         n = self.sym_len()
